@@ -277,6 +277,19 @@ def gen_cases(rng, tier):
         if r.chance(40):
             case["prior"] = True
         cases.append(case)
+    # the command line tool with a field selection and an explicit CSV writer (`rdump src -F ... -w csvfile://out`): the
+    # selection concerns the declared fields; the metadata columns still hold the record's own metadata
+    r = rng.fork("rdumpcsv")
+    DR = ["t/rd", [["string", "a"], ["varint", "b"], ["string", "c"]]]
+    for _ in range(8 * n):
+        recs = [["rec", DR, [V.S(r.choice(["x", "y,z", ""])), V.I(r.below(9)), V.S(r.choice(["q", "w"]))],
+                 {"_generated": ["dt", [2020, 1, 2, 3, 4, 5, 6], "utc", 0], "_source": V.S(r.choice(["src", "other"])),
+                  "_classification": r.choice([V.S("cls"), V.NONE])}] for _ in range(r.randint(1, 4))]
+        sel = r.choice([["-F", "c,a"], ["-F", "b"], ["-X", "b"], ["-F", "a,b,c"], ["-F", "c", "-X", "a"]])
+        cases.append({"kind": "rdumpcsv", "recs": recs, "args": sel})
+    wide = ["demo/wide", [["string", "f%02d" % i] for i in range(30)]]
+    cases.append({"kind": "text", "recs": [["rec", wide, [V.S("value-%02d-%s" % (i, "x" * (i % 7))) for i in range(30)],
+                                            {"_generated": ["dt", [2020, 1, 2, 3, 4, 5, 6], "utc", 0]}]], "pieces": None, "raw": None})
     # grouped records through the CSV and line writers: the flat field list (first member providing a name wins), with
     # selections that also name ATTRIBUTES of the group object which are not fields (name, records, descriptors, ...)
     r = rng.fork("grouped")
@@ -407,6 +420,8 @@ def run_real(case):
 
     if k == "grp":
         return _run_grp(case)
+    if k == "rdumpcsv":
+        return _run_rdumpcsv(case)
     recs = _build(case["recs"])
     tmp = tempfile.mkdtemp(prefix="frv-c20-")
     try:
@@ -546,8 +561,57 @@ def run_real(case):
                 chunks.append(V.enc_str(raw[prev:size].decode("utf-8", "surrogateescape")))
                 prev = size
             obs["outs"] = chunks
+            if spec is None:
+                # the terminal printer (RecordPrinter: what the stream writer uses on a tty) prints the same representation
+                try:
+                    from flow.record.stream import RecordPrinter
+                    bio = io.BytesIO()
+                    pr = RecordPrinter(bio)
+                    pouts = []
+                    for rec in recs:
+                        n0 = len(bio.getvalue())
+                        pr.write(rec)
+                        pouts.append(V.enc_str(bio.getvalue()[n0:].decode("utf-8", "surrogateescape")))
+                    obs["printer"] = pouts
+                except Exception as e:          # noqa: BLE001
+                    obs["printer"] = _err(e)
             return obs
         raise ValueError(k)
+    finally:
+        shutil.rmtree(tmp, ignore_errors=True)
+
+
+def _run_rdumpcsv(case):
+    from flow.record import RecordWriter
+    from flow.record.tools import rdump
+    recs = _build(case["recs"])
+    tmp = tempfile.mkdtemp(prefix="frv-c20-")
+    try:
+        src, out = os.path.join(tmp, "src.records"), os.path.join(tmp, "out.csv")
+        w = RecordWriter(src)
+        for rec in recs:
+            w.write(rec)
+        w.flush()
+        w.close()
+        try:
+            rdump.main([src] + list(case["args"]) + ["-w", "csvfile://" + out])
+        except SystemExit as e:
+            if e.code not in (0, None):
+                return {"exit": e.code}
+        except Exception as e:          # noqa: BLE001
+            return {"write": _err(e)}
+        with open(out, "r", newline="", errors="surrogateescape") as fp:
+            rows = [[V.enc_str(c) for c in row] for row in csv.reader(fp)]
+        # expectation from the case: selected declared names, then the reserved columns with the record's own metadata
+        names = [n for _, n in case["recs"][0][1][1]]
+        args = case["args"]
+        fields = args[args.index("-F") + 1].split(",") if "-F" in args else None
+        exclude = args[args.index("-X") + 1].split(",") if "-X" in args else []
+        sel = [n for n in (fields if fields else names) if n in names and n not in exclude]
+        want = [[V.enc_str(n) for n in sel + RESERVED]]
+        for rec in recs:
+            want.append([V.enc_str(_cell(getattr(rec, n))) for n in sel + RESERVED])
+        return {"rows": rows, "want": want}
     finally:
         shutil.rmtree(tmp, ignore_errors=True)
 
@@ -706,6 +770,16 @@ def oracle(case, obs):
                 return (f"a standard CSV parser reads {len(rows)} rows that differ from the {len(exp)} expected "
                         f"(header per run + str(value) cells); lineterminator={lt!r}")
         return None
+    if k == "rdumpcsv":
+        if "exit" in obs or "write" in obs:
+            return f"rdump {case['args']} -w csvfile://... failed: {obs.get('exit', obs.get('write'))}"
+        if obs["rows"] != obs["want"]:
+            j = next((i for i, (a, b) in enumerate(zip(obs["rows"], obs["want"])) if a != b), min(len(obs["rows"]), len(obs["want"])))
+            got = [V.dec_str(c)[:24] for c in obs["rows"][j]] if j < len(obs["rows"]) else None
+            exp = [V.dec_str(c)[:24] for c in obs["want"][j]] if j < len(obs["want"]) else None
+            return (f"rdump {' '.join(case['args'])} -w csvfile://...: CSV row {j} is {got}, the record's selected fields and its "
+                    f"own metadata are {exp}")
+        return None
     if k == "grp":
         if "str_error" in obs:
             return None
@@ -787,6 +861,14 @@ def oracle(case, obs):
                                else lk.get(s, "{" + s + "}") for kind, s in case["pieces"]) + "\n"
             if out != want:
                 return "text writer output differs from repr / the template with known fields substituted"
+            pr = obs.get("printer")
+            if case.get("pieces") is None and pr is not None:
+                if isinstance(pr, dict):
+                    if "Unicode" not in pr["error"]:
+                        return f"RecordPrinter raised {pr['error']} for a valid record: {pr['msg']}"
+                elif ri < len(pr) and V.dec_str(pr[ri]) != want:
+                    return (f"RecordPrinter prints {len(V.dec_str(pr[ri]))} characters for record {ri} that differ from its "
+                            f"printable representation ({len(want)} characters)")
         if len(obs["outs"]) != len(case["recs"]):
             return "text writer wrote fewer records than it was given"
         return None
